@@ -31,7 +31,12 @@ func Yield(site int) {
 //go:norace
 func spawnH(s *Sim, t *Task, r *Req) Status {
 	nt := r.X.(*Task)
+	if s.cfg.PathNames && nt.Name == "" {
+		nt.Name = fmt.Sprintf("%s.%d", t.Name, t.nkids)
+	}
 	s.addTask(nt)
+	s.Sync(t, "fork", nil, int64(t.nkids))
+	t.nkids++
 	s.Ev(t, "go", int64(nt.ID), 0)
 	return Done
 }
@@ -265,4 +270,46 @@ func MapKeys[M ~map[K]V, K comparable, V any](m M) []K {
 		out[i] = sorted[p[i]]
 	}
 	return out
+}
+
+// ---- generic blocking ------------------------------------------------------------
+
+//go:norace
+func waitUntilH(s *Sim, t *Task, r *Req) Status {
+	pred := r.X.(func() bool)
+	if !pred() {
+		if r.I1 == 0 {
+			r.I1 = 1
+			s.EvS(t, "wait", r.S0)
+		}
+		t.Ready = waitUntilReady
+		t.BlockedOn = r.S0
+		return Block
+	}
+	s.EvS(t, "proceed", r.S0)
+	return Done
+}
+
+//go:norace
+func waitUntilReady(s *Sim, t *Task) bool { return t.req.X.(func() bool)() }
+
+// WaitUntil parks the calling task until pred() holds. pred is evaluated on the
+// scheduler goroutine while no task runs; it must only read state that tasks
+// modify while holding the baton. Not for use under the race detector.
+func WaitUntil(desc string, pred func() bool) {
+	var r Req
+	r.S0 = desc
+	r.X = pred
+	Call(waitUntilH, &r)
+}
+
+// CurrentTask returns the running task (for interpreters that keep per-thread
+// state keyed by task).
+//
+//go:norace
+func CurrentTask() *Task {
+	if cur == nil {
+		return nil
+	}
+	return cur.running
 }
